@@ -37,7 +37,7 @@ class CGen:
         return xs[int(self.rng.integers(len(xs)))]
 
     def var(self, shape):
-        name = {(): "x", (2,): "u", (3,): "v", (2, 3): "m"}[shape] + str(int(self.rng.integers(0, 2)))
+        name = {(): "x", (2,): "u", (3,): "v", (2, 3): "m"}.get(shape, "w" + "_".join(map(str, shape)) + "_") + str(int(self.rng.integers(0, 2)))
         self.vars[name] = ("real", shape)
         return ("var", name, ("real", shape))
 
@@ -57,7 +57,7 @@ class CGen:
                 return self.choice(cands)  # shared sub-expression
         if depth <= 0 or self.rng.random() < 0.15:
             return self.leaf(shape)
-        kind = self.choice(["un", "bin", "bin", "bin", "outred", "reshape", "getitem", "getslice", "getitem-var"])
+        kind = self.choice(["un", "bin", "bin", "bin", "outred", "reshape", "getitem", "getslice", "getitem-var", "keepdims"])
         e = None
         if kind == "un":
             op = self.choice(["neg", "abs", "exp", "sigmoid", "tanh"])
@@ -72,13 +72,24 @@ class CGen:
             e = ("bin", op, (), l, r)
         elif kind == "outred" and len(shape) <= 1:
             op = self.choice(["sum", "prod", "amax", "amin", "logsumexp", "mean"])
-            if shape == ():
+            if shape == () and self.rng.random() < 0.3:
+                op2 = self.choice(["std", "var"])
+                big = self.choice([(3,), (2, 3)])
+                e = ("un", op2, (("axis", None), ("ddof", int(self.rng.integers(0, 2))), ("keepdims", False)), self.expr(depth - 1, big))
+            elif shape == ():
                 big = self.choice([(2,), (3,), (2, 3)])
                 e = ("un", op, (("axis", None), ("keepdims", False)), self.expr(depth - 1, big))
+            elif shape == (1,) or (len(shape) == 2 and 1 in shape):
+                pass
             else:
                 big, axis = self.choice([((2,) + shape, 0), (shape + (2,), -1), ((3,) + shape, 0)])
                 if len(big) <= 2 and big in [(2, 3)]:
                     e = ("un", op, (("axis", axis), ("keepdims", False)), self.expr(depth - 1, big))
+        elif kind == "keepdims" and shape in ((2,), (3,)):
+            op = self.choice(["sum", "amax", "mean", "std", "var", "logsumexp"])
+            params = (("axis", -1), ("keepdims", True)) if op not in ("std", "var") else (("axis", -1), ("ddof", int(self.rng.integers(0, 2))), ("keepdims", True))
+            inner = ("un", op, params, self.expr(depth - 1, shape + (int(self.choice([2, 3])),)))   # shape + (1,)
+            e = ("un", "reshape", (("shape", shape),), inner)
         elif kind == "reshape":
             src = {(2, 3): [(3, 2)], (): [(1,)], (2,): [(1, 2), (2, 1)], (3,): [(1, 3)]}.get(shape)
             if src and src[0] in [(2, 3)]:
@@ -147,6 +158,8 @@ def ops_eval(ir, env):
         op = ir[1]
         if op in ("sum", "prod", "amax", "amin", "logsumexp", "mean"):
             return getattr(ops, op)(x, p.get("axis"), p.get("keepdims", False))
+        if op in ("std", "var"):
+            return getattr(ops, op)(x, p.get("axis"), p.get("ddof", 0), p.get("keepdims", False))
         if op == "reshape":
             return ops.reshape(x, tuple(p["shape"]))
         if op == "getslice":
@@ -232,7 +245,9 @@ def run_case(P, declared, res, riders, rng):
                     continue
             except Exception as e:
                 res.count("substitution:declined:%s" % type(e).__name__)
-            for label, thunk in (("compiled", lambda: program(**data)), ("pickled", (lambda: pickled(**data)) if pickled is not None else None)):
+            rdata = dict(reversed(list(data.items())))  # keyword order must not matter
+            for label, thunk in (("compiled", lambda: program(**data)), ("compiled", lambda: program(**rdata)),
+                                 ("pickled", (lambda: pickled(**rdata)) if pickled is not None else None)):
                 if thunk is None:
                     continue
                 try:
@@ -253,7 +268,7 @@ def run_case(P, declared, res, riders, rng):
                     env = {}
                     exec(code, None, env)
                     with np.errstate(all="ignore"):
-                        got = env["program2"](**data)
+                        got = env["program2"](**(data if b % 2 else dict(reversed(list(data.items())))))
                     if not same(got, want):
                         # an array constant printed with str() may still parse (e.g. "[-1.25 -1.5 ]" is the list [-2.75])
                         key = "as_code:array-constant" if array_consts else "as_code"
